@@ -14,6 +14,7 @@ constexpr int NALL = NSLOT + NLIT + NSC;
 constexpr int NSEQ = 3;    // sequence object slots
 constexpr int NDW = 3;     // deathwatched object slots
 constexpr int NMON = 3;    // lifetime-monitor slots per deathwatched object
+constexpr int NMONX = NMON + 1;  // + one slot for a scoped (non-NAMED) REQUIRE_DESTRUCTION inside a scoped block
 constexpr int MAXTR = 3;   // tracer nesting depth
 
 enum Func { F_f = 0, F_h, F_ovi, F_ovs, F_v, F_cf, F_g, NFUNC };
